@@ -180,3 +180,23 @@ mod tests {
         assert_eq!(accum.accept(b'B'), Some(Input::Control(ControlInput::Down)));
     }
 }
+
+#[cfg(funbiscuit_embedded_cli_rs_verif)]
+impl InputGenerator {
+    pub fn __verif_from_parts(csi: bool, last_byte: u8, utf8: Utf8Accum) -> Self {
+        let mut flags = Flags::empty();
+        flags.set(Flags::CSI_STARTED, csi);
+        Self {
+            flags,
+            last_byte,
+            utf8,
+        }
+    }
+    pub fn __verif_parts(&self) -> (bool, u8, &Utf8Accum) {
+        (
+            self.flags.contains(Flags::CSI_STARTED),
+            self.last_byte,
+            &self.utf8,
+        )
+    }
+}
